@@ -37,7 +37,9 @@ NamesOf(sq) == {sq[i].name : i \in Idxs(sq)}
 \* ---- the base model: every type kind, wrappers to depth 3, defaults of every value kind -------
 BasePieces == <<
   [Piece(FALSE, "SCALAR", "Custom") EXCEPT !.impl = "ok"],
-  [Piece(FALSE, "ENUM", "Color") EXCEPT !.values = <<EV("RED"), [EV("GREEN") EXCEPT !.dep = TRUE, !.reason = "old"], EV("BLUE")>>],
+  [Piece(FALSE, "ENUM", "Color") EXCEPT !.values = <<EV("RED"), [EV("GREEN") EXCEPT !.dep = TRUE, !.reason = "old"], EV("BLUE"),
+                                                          \* explicitly empty / explicitly null reasons ("<empty>", "<null>" are markers; "" = no reason given)
+                                                          [EV("GREY") EXCEPT !.dep = TRUE, !.reason = "<empty>"], [EV("BEIGE") EXCEPT !.dep = TRUE, !.reason = "<null>"]>>],
   [Piece(FALSE, "INPUT", "Filter") EXCEPT !.inputs = << ArD("limit", Nm("Int"), L("int", 10)), Ar("tags", Li(Nn(Nm("String")))), Ar("must", Nn(Nm("Boolean"))),
                                                         ArD("color", Nm("Color"), L("enum", "RED")), Ar("sub", Nm("Filter")),
                                                         ArD("ratio", Nm("Float"), L("float", "1.5")), ArD("note", Nm("String"), L("str", "a b")),
@@ -50,6 +52,8 @@ BasePieces == <<
                                                               ArD("f", Nm("Filter"), L("obj", << <<"must", L("bool", TRUE)>>, <<"tags", L("list", <<L("str", "x")>>)>> >>))>>),
                       [Fd("old", Nm("Int"), <<>>) EXCEPT !.dep = TRUE, !.reason = "use new"],
                       [Fd("older", Nm("Int"), <<>>) EXCEPT !.dep = TRUE],
+                      [Fd("oldest", Nm("Int"), <<>>) EXCEPT !.dep = TRUE, !.reason = "<empty>"],
+                      [Fd("ancient", Nm("Int"), <<>>) EXCEPT !.dep = TRUE, !.reason = "<null>"],
                       [Fd("secret", Nm("String"), <<>>) EXCEPT !.hidden = TRUE],
                       Fd("grid", Li(Li(Nn(Nm("Custom")))), <<>>), Fd("fav", Nm("Color"), <<>>) >>],
   [Piece(FALSE, "OBJECT", "Post") EXCEPT !.ifaces = <<"Node">>,
